@@ -1,0 +1,25 @@
+//go:build verif
+
+package appdb
+
+import (
+	db "github.com/tendermint/tm-db"
+)
+
+// VerifWrapDB, when set, receives the freshly opened application DB handle and
+// returns the handle the AppDB will use. Only compiled with the `verif` build tag:
+// the verification harness uses it to keep an in-memory app DB across simulated
+// restarts and to intercept individual writes (crash injection).
+var VerifWrapDB func(db.DB) db.DB
+
+func verifWrapDB(d db.DB) db.DB {
+	if VerifWrapDB != nil {
+		return VerifWrapDB(d)
+	}
+	return d
+}
+
+// VerifRawDB returns the underlying DB handle.
+func (appDB *AppDB) VerifRawDB() db.DB {
+	return appDB.db
+}
